@@ -17,7 +17,7 @@ RULE = ("enumerated cells: (100)/(110)/(111)/(001) slabs of the 65 reference ele
         "atom at covalent bonding distance + 0.2 A), lateral size >= 9 A, fully periodic with 10 A vacuum; monolayers "
         "(graphene, h-BN, 2H/1T MX2) 3x3-6x6; presentation = random SO(3) rotation, translation, permutation from the cell's "
         "pool for VERIF_SEED mod 4. Cells failing the independent bonding/overlap/connectivity precondition are discarded "
-        "and counted. thorough = all cells, quick = VERIF_SEED-chosen subset + listed findings' cells. distinct = cell keys judged")
+        "and counted. thorough = all cells, quick = VERIF_SEED-chosen subset + a sample of the listed findings' cells. distinct = cell keys judged")
 ASSUMPTIONS = ["ASE builders", "brute-force bonding precondition (ASE covalent radii)", "default Classifier parameters"]
 CASE_TIMEOUT = 900
 BUDGET_S = {"quick": 900, "thorough": 3400}
@@ -45,7 +45,10 @@ def gen_cases(tier, seed):
         chosen += [c for c in [mono[i] for i in rng.choice(len(mono), size=6, replace=False)] if c["key"] not in have]
         listed = {f["key"].split("|", 1)[1] for f in hmain.load_known(ID) if f["key"].startswith("C18|")}
         have = {c["key"] for c in chosen}
-        chosen += [c for c in universe if c["key"] in listed and c["key"] not in have]
+        extra = [c for c in universe if c["key"] in listed and c["key"] not in have]
+        if len(extra) > 8:           # re-observe a sample of the listed cells (classification is slow)
+            extra = [extra[i] for i in rng.choice(len(extra), size=8, replace=False)]
+        chosen += extra
     return [{"cell": c, "seed_class": sc, "k": 0} for c in chosen]
 
 
